@@ -127,6 +127,8 @@ pub fn stress_menu_b() -> Vec<String> {
         "def X : Y { int v = !cond(true: 1); let f = !cond(true: 2); bits<2> b = { 1, 0 }; bit c = b{0}; }",
         "defvar X = !filter(e, [1, 2], !gt(e, Y));",
         "multiclass X<int p = !cond(true: 1)> : Y<p> { defvar v = p; def _a : X; }",
+        // bit ranges whose piece sizes do not fit the arithmetic they are summed in
+        "def X : Y { bits<4> b = 0; bit c = b{0-9223372036854775807, 0-9223372036854775807}; bits<2> d = b{9223372036854775807...0, 1}; int e = b{-9223372036854775808}; }",
         // one let over two defs whose classes each declare the field, with an untyped value and with some bits only
         "class P1 { bits<4> f = 0; } class P2 { bits<4> f = 0; } let f = !cond(true: 1) in { def X : P1; def Y : P2; } let f<0> = 1 in { def X1 : P2; def Y1 : P1; }",
     ];
